@@ -283,6 +283,20 @@ class CExecPyObj(CExecL3):
             # pow2 is the function n -> 2**n: it agrees with the closed form on the range the closed form covers
             st.path.append(z3.Implies(z3.And(nb >= 0, nb <= 64), pow2u(nb) == _S.pow2(nb)))
             return r
+        if name in ("PyByteArray_GET_SIZE", "PyByteArray_AS_STRING"):
+            o = self.oid(self.ev(st, argn[0]))
+            self.oblige(st, "pre", "%s.argument_is_a_bytearray" % name, exact_type(o) == TYPE_IDS["PyByteArray_Type"], n)
+            st.path.append(z3.And(blen(o) >= 0, blen(o) < 2 ** 62))
+            self.assumptions.add("PyByteArray_GET_SIZE / PyByteArray_AS_STRING: the length of the bytearray and len + 1 readable chars")
+            if name == "PyByteArray_GET_SIZE":
+                return CV(ty, blen(o))
+            oname = "pybytes[%s]" % o
+            if oname not in st.objs:
+                from .cfe import MemObj
+                st.objs[oname] = MemObj(oname, parse_type("char"), blen(o) + 1)
+            if oname not in st.mem:
+                st.mem[oname] = bytes_of(o)
+            return Ptr(ty, oname, z3.IntVal(0))
         if name == "PyBytes_GET_SIZE":
             o = self.oid(self.ev(st, argn[0]))
             self.oblige(st, "pre", "PyBytes_GET_SIZE.argument_is_bytes", is_bytes_sub(o), n)
